@@ -50,7 +50,11 @@ impl Out {
     /// code under test (abort, segfault) can be attributed to that script
     pub fn begin_script(&mut self, tid: &serde_json::Value) {
         self.w.flush().unwrap();
-        let _ = std::fs::write(&self.cur, tid.to_string());
+        // atomically: another thread of the code under test may abort the process at any moment
+        let tmp = format!("{}.tmp", self.cur);
+        if std::fs::write(&tmp, tid.to_string()).is_ok() {
+            let _ = std::fs::rename(&tmp, &self.cur);
+        }
     }
     pub fn finish(mut self) {
         let _ = std::fs::remove_file(&self.cur);
